@@ -406,3 +406,26 @@ Theorem C10_fallback_to_resolver_rdb_compiled_closed : forall sort, sort_spec so
             end.
 Proof. exact fallback_to_resolver_rdb_compiled_closed. Qed.
 Print Assumptions C10_fallback_to_resolver_rdb_compiled_closed.
+
+(* ---- FindLocation on the compiled database, all three drivers (Model/Handler.client_location =
+   find_client_location over FindMap / GetLocationByMap of the driver): whenever FindMap is the map
+   choice over the file's M / 8 lines and GetLocationByMap is longest-prefix match over its % lines -
+   both PROVED of every compiled database in C03_map_choice_compiled_* , C03_cdb_compiled_is_lpm and
+   C03_rdb_compiled_is_lpm_closed - it returns the location Spec/ClientLocation.client_view names (ECS
+   first, resolver as fall-back) and the request's option with the scope Spec/ClientLocation.scope_view.
+   Composed with the answer readers in C01_file_level_client. *)
+From DnsV Require Model.Handler Spec.ClientLocation.
+From DnsV Require Import Proofs.ClientSpecLink Proofs.ClientFileLevel.
+
+Theorem C10_client_location_is_view : forall rs lb dbl cq (n : list bytes) rip,
+  (forall kind, kind = 77 \/ kind = 56 ->
+     Model.Handler.find_map lb dbl [0; kind] (pack_labels n) =
+     Ok (option_map mapid_bytes (map_choice (Spec.ClientLocation.declared_maps rs) kind n))) ->
+  (forall m c, wf_client c -> exists r, Model.Handler.get_location lb dbl m c = Ok r /\
+     hit_of r = lpm (file_nets rs m) (cfam c) (search_addr true c) (eff_plen c)) ->
+  q_rip cq = Some rip -> rip < two128 -> (forall e, query_ecs cq = Some e -> wf_ecs e) ->
+  exists loc, Model.Handler.client_location lb dbl (Spec.Rows.pack n) cq =
+                Ok (option_map (fun e => set_scope e (Spec.ClientLocation.scope_view rs n (ecs_in_of e))) (query_ecs cq), loc) /\
+              l_loc loc = Spec.ClientLocation.client_view rs n rip (option_map ecs_in_of (query_ecs cq)).
+Proof. exact client_location_is_view. Qed.
+Print Assumptions C10_client_location_is_view.
